@@ -12,18 +12,19 @@ Proof.
   split; [exact (show_length_le_28 n H)|exact (show_upper n H)].
 Qed.
 
-(* One-to-one: printing is injective, and every non-empty string the parser accepts is the
-   printed form of the value it returns (so distinct accepted names have distinct values and
-   the image of printing is exactly the accepted non-empty names).  The empty string is not a
-   name: the parser maps it to 0 like "A" (see C31 / notes). *)
+(* One-to-one: printing is injective, and every string the parser accepts is the printed form
+   of the value it returns (so distinct accepted strings have distinct values and the image of
+   printing is exactly the set of accepted strings).  The empty string is rejected (after the
+   repair recorded in known_findings.txt; before it, "" parsed to 0 like "A"). *)
 Theorem C32_bijection :
   (forall a b, a < P128 -> b < P128 -> show a = show b -> a = b) /\
-  (forall s n, s <> [] -> parse s = Ok n -> n < P128 /\ show n = s) /\
-  (forall s t n, s <> [] -> t <> [] -> parse s = Ok n -> parse t = Ok n -> s = t).
+  (forall s n, parse s = Ok n -> n < P128 /\ show n = s) /\
+  (forall s t n, parse s = Ok n -> parse t = Ok n -> s = t) /\
+  parse [] = Err E_RANGE.
 Proof.
-  split; [exact show_inj|]. split; [exact show_parse|].
-  intros s t n Hs Ht Ps Pt. destruct (show_parse s n Hs Ps) as [_ <-].
-  destruct (show_parse t n Ht Pt) as [_ <-]. reflexivity.
+  split; [exact show_inj|]. split; [exact show_parse|]. split; [|reflexivity].
+  intros s t n Ps Pt. destruct (show_parse s n Ps) as [_ <-].
+  destruct (show_parse t n Pt) as [_ <-]. reflexivity.
 Qed.
 
 (* The value denoted by a name d_1..d_k (letters as digits 0..25, most significant first) is
